@@ -165,7 +165,11 @@ func (c *monC09) After(m *Machine, s *Step) *Violation {
 		case "login", "otplogin", "totpvalidate", "smsvalidate", "recend":
 			na, ok := r.SessAfter[authboss.SessionLastAction]
 			t, err := time.Parse(time.RFC3339, na)
-			if !ok || err != nil || t.Before(r.T0.Add(-1100*time.Millisecond)) || t.After(r.T1.Add(time.Second)) {
+			if r.Fired != "" {
+				// a failed backend call cut the request short: the next request's
+				// middleware has to start the clock (checked there)
+				m.flag("login-cut-short-by-fault")
+			} else if !ok || err != nil || t.Before(r.T0.Add(-1100*time.Millisecond)) || t.After(r.T1.Add(time.Second)) {
 				return violation("C09", "login-did-not-start-idle-clock:"+op.K, "%s login left last_action=%q (ok=%v)", op.K, na, ok)
 			}
 			m.flag("login-stamped")
@@ -186,7 +190,10 @@ var kindsC09 = []wk{
 }
 
 var profC09 = profile{
-	must: []string{"auth"}, may: []string{"otp", "recover", "register", "oauth2", "logout"},
+	must: []string{"auth"}, may: []string{"otp", "recover", "register", "oauth2", "logout", "lock", "remember"},
+	// a backend fault in a login request can stop the hook chain between the
+	// session write and the idle-clock stamp (lock's and remember's hooks save)
+	faultPct: 12, faultOps: []string{"login", "otplogin", "totpvalidate", "smsvalidate", "recend"},
 	mustSetups: []string{"expire"}, setups: []string{"totp", "sms"}, kinds: kindsC09, minOps: 16, maxOps: 38,
 	accts: [2]int{2, 3}, browsers: [2]int{1, 2}, middlewares: []string{"expire"},
 	tweak: func(t *rapid.T, c *harness.Config) {
@@ -208,6 +215,12 @@ func TestC09(t *testing.T) {
 		cfg := genConfig(rt, p)
 		e := genEnv{cfg: cfg, nAcct: len(cfg.Accounts), nBrows: cfg.Browsers}
 		ops := genOps(rt, p, e)
+		for i := range ops {
+			if contains(p.faultOps, ops[i].K) && chance(rt, "fault9", p.faultPct) {
+				ops[i].FA = pick(rt, "faultat9", 1, 2, 2, 3, 3, 4, 4, 5, 6)
+				ops[i].FK = "generic"
+			}
+		}
 		E := cfg.ExpireS
 		gaps := []int{0, 1, E / 2, E - 3, E + 3, E + E/4 + 3, 3 * E}
 		for i := range ops {
